@@ -123,6 +123,64 @@ func h02Text(n int) []byte {
 	return b
 }
 
+// h02ValidUTF8 is the well-formedness of UTF-8 (Unicode 15, table 3-7), written out.
+func h02ValidUTF8(b []byte) bool {
+	for i := 0; i < len(b); {
+		c := b[i]
+		n, lo, hi := 0, byte(0x80), byte(0xBF)
+		switch {
+		case c < 0x80:
+			i++
+			continue
+		case c >= 0xC2 && c <= 0xDF:
+			n = 1
+		case c == 0xE0:
+			n, lo = 2, 0xA0
+		case c == 0xED:
+			n, hi = 2, 0x9F
+		case c >= 0xE1 && c <= 0xEF:
+			n = 2
+		case c == 0xF0:
+			n, lo = 3, 0x90
+		case c == 0xF4:
+			n, hi = 3, 0x8F
+		case c >= 0xF1 && c <= 0xF3:
+			n = 3
+		default:
+			return false
+		}
+		if i+n >= len(b) {
+			return false
+		}
+		if b[i+1] < lo || b[i+1] > hi {
+			return false
+		}
+		for j := 2; j <= n; j++ {
+			if b[i+j] < 0x80 || b[i+j] > 0xBF {
+				return false
+			}
+		}
+		i += n + 1
+	}
+	return true
+}
+
+// H02bytes: every well-formed UTF-8 text of exactly n bytes (all byte values; multi-byte
+// characters with symbolic content at every position): the forest, every argument byte and the
+// positions (columns count characters) against the reference reader.
+func H02bytes() {
+	n := param("n")
+	b := make([]byte, n)
+	nonASCII := false
+	for i := range b {
+		b[i] = symByte()
+		nonASCII = symOr(nonASCII, b[i] >= 0x80)
+	}
+	assume(nonASCII) // the ASCII texts are H02raw's
+	assume(h02ValidUTF8(b))
+	h02Check(string(b), param("errpos"))
+}
+
 // H02raw: every ASCII text of exactly n bytes.
 func H02raw() {
 	b := h02Text(param("n"))
